@@ -1,68 +1,66 @@
 import GuppyVerif.Lemmas.C03Shape
+import GuppyVerif.Lemmas.C03Preds
 import GuppyVerif.Lemmas.C03Fuel
 import GuppyVerif.Lemmas.C03Wiring
-/-! # C03 — Classical control and data flow behave as in Python  (partial)
+/-! # C03 — Classical control and data flow behave as in Python
 
 Property theorems only.  Models: `Model/Surface.lean` (surface language + Python's semantics; unbounded
-ints and bools, external calls recorded in a trace), `Model/Builder.lean` (`cfg/builder.py`:
-CFGBuilder / ExprBuilder / BranchBuilder, reachability, implicit return, pruning; CFG execution).
-Vocabulary: `Spec/C03.lean` (`hoistSafe`, `userS`), `Lemmas/C03Sem.lean` (`loopScoped`).
+ints and bools, external calls recorded in a trace), `Model/Builder.lean` (`cfg/builder.py` after the
+repairs f9e33c1 / 7c8aeda: CFGBuilder / ExprBuilder incl. `build_operands` / BranchBuilder, reachability,
+implicit return, pruning; CFG execution).
+Vocabulary: `Spec/C03.lean` (`userS`), `Lemmas/C03Sem.lean` (`loopScoped`).
 
-**Full statement (false of the code, see `Props/C05.lean` for the counterexamples, defect D9):**
-for every surface program `p`, every input store and every environment of external functions, if
-Python's big-step semantics runs `p` to a `return v` (or off the end), then executing the CFG that
-`CFGBuilder.build` produces halts in the exit block with the same return value, the same trace of
-external calls and the same values of the user variables.
+**Statement (`builder_correct`)**: for every surface program `p`, every input store and every environment of
+external functions, if Python's big-step semantics runs `p` to a `return v` (or off the end), then
+executing the CFG that `CFGBuilder.build` produces halts in the exit block with the same return value, the
+same trace of external calls and the same values of the user variables.  The two hypotheses say that `p` is
+a Python program: it does not mention the builder's `%tmp` variables (`userS`; not an identifier) and uses
+`break`/`continue` only inside loops (`loopScoped`; a SyntaxError otherwise).  `for x in range(e)` loops are
+included: their template (`make_iter` / `iter_next` / `is_some` / `unwrap`) is executed with the iterator
+semantics of `range` (`applyPrim`).  No bound on program size, loop iterations or inputs;
+termination-insensitive (the hypothesis is a terminating Python run).
 
-**Proved (`builder_correct_partial`)**: the same, for programs that are *hoist-safe* (`Spec/C03.lean`)
-and use `break`/`continue` only inside loops — including `for x in range(e)` loops, whose template
-(`make_iter` / `iter_next` / `is_some` / `unwrap`) is executed with the iterator semantics of `range`
-(`applyPrim`).  No bound on program size, loop iterations or
-inputs; termination-insensitive (the hypothesis is a terminating Python run).  Unmodelled: expression
-lowering to HUGR and HUGR execution. -/
+Until f9e33c1 / 7c8aeda the statement was false of the code (defect D9: the middle operand of a chained
+comparison built twice; lifted sub-expressions hoisted before side-effecting left siblings) and was proved
+under a *hoist-safety* hypothesis; the model now follows the repaired builder and the hypothesis is gone.
+The former counterexamples are theorems of the repaired model in `Props/C05.lean` (`d9_*_fixed`).
+Unmodelled: expression lowering to HUGR and HUGR execution. -/
 namespace GuppyVerif.Builder
 open GuppyVerif.Surface
 
-/-- **C03 `builder_correct`, partial**: the CFG built for a hoist-safe program computes what Python
-    computes: same return value, same trace of external calls (names, arguments, results, order), same
-    final values of all user variables.  `rn` is `returns_none`; falling off the end is only accepted
-    by the builder when `rn` holds. -/
-theorem builder_correct_partial (env : Env) (p : Stmt) (rn : Bool) (g : Cfg) (st0 : Store) (o : Outcome) (st' : S)
-    (hu : userS p = true) (hs : hoistSafe p = true) (hsc : loopScoped p false = true)
+/-- **C03 `builder_correct`**: the CFG built for a program computes what Python computes: same return value,
+    same trace of external calls (names, arguments, results, order), same final values of all user variables.
+    `rn` is `returns_none`; falling off the end is only accepted by the builder when `rn` holds. -/
+theorem builder_correct (env : Env) (p : Stmt) (rn : Bool) (g : Cfg) (st0 : Store) (o : Outcome) (st' : S)
+    (hu : userS p = true) (hsc : loopScoped p false = true)
     (hb : buildCfg rn p = .ok g) (hex : Exec env p (st0, []) o st') :
     ∃ (n : Nat) (c : Config), run env g.blocks n ⟨0, 0, (st0, []), none⟩ = some c ∧ c.b = 1 ∧
       c.s.2 = st'.2 ∧ agreeU c.s.1 st'.1 ∧
       ((∃ v, o = .ret v ∧ c.ret = some v) ∨ (o = .normal ∧ c.ret = none ∧ rn = true)) :=
-  buildCfg_correct hu hs hsc hb hex
+  buildCfg_correct hu hsc hb hex
 
-/-- the verdict `safe` that the driver reports to the harness (a real-code discrepancy on such a program is a
-    VIOLATION, not a known finding) is exactly the hypothesis of `builder_correct_partial` -/
-theorem hsClass_safe (p : Stmt) (h : hsClass p = "safe") : hoistSafe p = true := by
-  unfold hsClass at h
-  split at h
-  · exact absurd h (by decide)
-  · split at h
-    · assumption
-    · exact absurd h (by decide)
+/-- the fragment token the driver reports to the harness is `safe` for every program: a real-code discrepancy
+    on any program of the fragment is a VIOLATION -/
+theorem hsClass_safe (p : Stmt) : hsClass p = "safe" := rfl
 
 /-- the executable Python interpreter that the driver runs (and the harness compares with CPython on every
     generated program) is sound for the big-step relation used above -/
 theorem execFuel_sound' (env : Env) (n : Nat) (s : Stmt) (st : S) (o : Outcome) (st' : S)
     (h : execFuel env n s st = some (o, st')) : Exec env s st o st' := execFuel_sound env n s st o st' h
 
-/-- **statement level, any position in a CFG under construction**: building a hoist-safe statement from an
+/-- **statement level, any position in a CFG under construction**: building a statement from an
     open block `b` of any builder state yields code that, in every later extension `bl` of the CFG, takes a
     state agreeing with Python's on user variables to one agreeing with Python's final state — ending in the
     builder's continuation block (normal completion), in the innermost loop's tail / head (`break` /
     `continue`: `J.brk` / `J.cont` are the targets `visit_While` installed), or in the return block with
     the return value set. -/
-theorem stmt_builder_correct_partial (env : Env) (s : Stmt) (st st' : S) (o : Outcome) (h : Exec env s st o st')
+theorem stmt_builder_correct (env : Env) (s : Stmt) (st st' : S) (o : Outcome) (h : Exec env s st o st')
     (prev b : Nat) (J : Jumps) (σ : BState) (bl : List Block) (il : Bool) (stI : S) (rv : Option Val)
-    (hu : userS s = true) (hs : hoistSafe s = true) (hsc : loopScoped s il = true)
+    (hu : userS s = true) (hsc : loopScoped s il = true)
     (hJ : JOk J il) (hb : b < σ.len) (ho : (σ.blk b).succs = []) (hx : Ext (build s prev (some b) J σ).1 bl)
     (hag : agreeU stI.1 st.1) (htr : stI.2 = st.2) :
     PostS env bl J (build s prev (some b) J σ) o ⟨b, (σ.blk b).stmts.length, stI, rv⟩ σ.nextTmp st' :=
-  ((sem_stmt h).1 prev b J σ bl il stI rv hu hs hsc hJ hb ho hx hag htr).1
+  ((sem_stmt h).1 prev b J σ bl il stI rv hu hsc hJ hb ho hx hag htr).1
 
 /-- **after pruning no real edge leads from unreachable into reachable code, and dummy edges point to
     unreachable blocks only** (for every block list, hence for every CFG `buildCfg` returns) -/
@@ -83,6 +81,14 @@ theorem reachable_flags_exact (blocks : List Block) (rs : List Nat) (h : reachab
 theorem two_successors_have_pred (p : Stmt) (rn : Bool) (g : Cfg) (hb : buildCfg rn p = .ok g)
     (i : Nat) : (blkL g.blocks i).succs.length ≤ 2 ∧ ((blkL g.blocks i).succs.length = 2 → (blkL g.blocks i).pred ≠ none) :=
   buildCfg_shape hb i
+
+/-- **every non-entry block has a predecessor over a real or a dummy edge** (for every CFG `buildCfg` returns,
+    after pruning: no block is left dangling — unreachable code hangs on dummy edges or on other unreachable code, which
+    is what lets the type checker propagate types into it) -/
+theorem nonentry_block_has_pred (p : Stmt) (rn : Bool) (g : Cfg) (hb : buildCfg rn p = .ok g)
+    (i : Nat) (h0 : 0 < i) (hi : i < g.blocks.length) :
+    ∃ j, j < g.blocks.length ∧ (i ∈ (blkL g.blocks j).succs ∨ i ∈ (blkL g.blocks j).dsuccs) :=
+  buildCfg_has_pred hb i h0 hi
 
 /-- **`break` / `continue` target the innermost loop**: the body of a `while` is built with the loop's own head
     as `continue` target and its own tail as `break` target, whatever the enclosing targets `J` are (only the
@@ -150,23 +156,23 @@ example : Wiring.blockInputs false ⟨[⟨"a1", true⟩, ⟨"q", false⟩, ⟨"B
     expressions and calls satisfies all hypotheses, is accepted, and has a terminating Python run -/
 
 /-- `while x < 5: (if c(): break) ; x += f(x) ; (if x == 3: continue) ; y = (g() if x > 2 else 7)`
-    `return y + (k() if p() else 1)` … wait, that last one is *not* hoist-safe; the example returns
-    `(k() if p() else 1) + y`, which is. -/
+    `return y + (k() if p() else 1) + (u() < v() < (x := w()))`; `z = 1` (unreachable).  The return expression
+    has the two shapes that were miscompiled before f9e33c1 / 7c8aeda. -/
 def exProg : Stmt :=
   .cons (.while (.bi (.cmp .lt) (.var (.user "x")) (.num 5))
     (.cons (.ite (.call0 "c") (.cons .brk .nil) .nil)
     (.cons (.aug (.user "x") .add (.un (.call1 "f") (.var (.user "x"))))
     (.cons (.ite (.bi (.cmp .eq) (.var (.user "x")) (.num 3)) (.cons .cont .nil) .nil)
     (.cons (.assign (.user "y") (.ite (.bi (.cmp .gt) (.var (.user "x")) (.num 2)) (.call0 "g") (.num 7))) .nil)))))
-  (.cons (.ret (.bi (.arith .add) (.ite (.call0 "p") (.call0 "k") (.num 1)) (.var (.user "y"))))
+  (.cons (.ret (.bi (.arith .add) (.bi (.arith .add) (.var (.user "y")) (.ite (.call0 "p") (.call0 "k") (.num 1)))
+      (.cmp2 .lt .lt (.call0 "u") (.call0 "v") (.walrus (.user "x") (.call0 "w")))))
   (.cons (.assign (.user "z") (.num 1)) .nil))
 
 def exEnv : Env := fun tr f _ => if f == "c" then .bool (decide (tr.length > 4)) else .int (tr.length % 2 + 1)
 
-example : userS exProg = true ∧ hoistSafe exProg = true ∧ loopScoped exProg false = true := by
-  decide
-example : (match buildCfg false exProg with | .ok g => g.blocks.length | .error _ => 0) = 16 := by decide
-example : ∃ o st', Exec exEnv exProg (fun _ => .int 0, []) o st' ∧ o = .ret (.int 3) ∧ st'.2.length = 8 := by
+example : userS exProg = true ∧ loopScoped exProg false = true := by decide
+example : (match buildCfg false exProg with | .ok g => g.blocks.length | .error _ => 0) = 20 := by decide
+example : ∃ o st', Exec exEnv exProg (fun _ => .int 0, []) o st' ∧ o = .ret (.int 3) ∧ st'.2.length = 11 := by
   refine ⟨_, _, execFuel_sound exEnv 100 exProg (fun _ => .int 0, []) _ _ rfl, ?_, ?_⟩ <;> decide
 
 /-- `for i in range(x if c() else 3): (if i == 1: continue); y += f(i)` then `return y` -/
@@ -175,7 +181,7 @@ def exFor : Stmt :=
     (.cons (.ite (.bi (.cmp .eq) (.var (.user "i")) (.num 1)) (.cons .cont .nil) .nil)
     (.cons (.aug (.user "y") .add (.un (.call1 "f") (.var (.user "i")))) .nil)))
   (.cons (.ret (.var (.user "y"))) .nil)
-example : userS exFor = true ∧ hoistSafe exFor = true ∧ loopScoped exFor false = true := by decide
+example : userS exFor = true ∧ loopScoped exFor false = true := by decide
 example : ∃ o st', Exec exEnv exFor (fun _ => .int 0, []) o st' ∧ o = .ret (.int 3) ∧ st'.2.length = 3 := by
   refine ⟨_, _, execFuel_sound exEnv 100 exFor (fun _ => .int 0, []) _ _ rfl, ?_, ?_⟩ <;> decide
 
